@@ -72,7 +72,7 @@ KWNAMES = ("strict", "timeout", "retries", "dry", "mode", "limit")
 TYPES = ("int", "str", "float", "bool", "Optional[int]", "Optional[str]", "List[str]", "Literal['a', 'b']",
          "Dict[str, int]", "Optional[List[float]]")
 VALUES = {
-    "int": ("0", "1", "7", "-3", "120"), "str": ("'a'", "'mnist'", "'x_y'", "\"q's\""), "float": ("0.5", "-2.0", "1e-3"),
+    "int": ("0", "1", "7", "-3", "120"), "str": ("'a'", "'mnist'", "'x_y'", "\"q's\"", "'Straße'", "'déjà vu µm'"), "float": ("0.5", "-2.0", "1e-3"),
     "bool": ("True", "False"), "Optional[int]": ("None", "4"), "Optional[str]": ("None", "'left'"),
     "List[str]": ("['a']", "[]", "('x', 'y')"), "Literal['a', 'b']": ("'a'", "'b'"), "Dict[str, int]": ("{}", "{'k': 1}"),
     "Optional[List[float]]": ("None", "[0.5, 1.0]"), None: ("None", "2", "'u'"),
